@@ -18,6 +18,19 @@ func (d *vBadDecomp) Read(p []byte) (int, error) {
 	case 1:
 		return 0, io.EOF
 	}
+	if d.how == 3 {
+		// an inflater inside a block that the payload cut short: it asks for byte after byte through
+		// io.ByteReader (when the source offers it) and keeps asking a little after the first error
+		if br, ok := d.r.(io.ByteReader); ok {
+			errs := 0
+			for i := 0; i < 40 && errs < 3; i++ {
+				if _, err := br.ReadByte(); err != nil {
+					errs++
+				}
+			}
+			return 0, io.ErrUnexpectedEOF
+		}
+	}
 	n, _ := d.r.Read(p)
 	if n == 0 {
 		return 0, io.EOF
